@@ -333,6 +333,11 @@ def run(R, only=None):
             "select x, y, count(*) from (select x, y from a order by y) t group by x, y", "select x, y, count(*) from (select x, y from a order by x desc) t group by x, y",
             "select k, v, count(*) from p group by k, v", "select k, v, sum(v) from p group by k, v", "select v, k, count(*) from p group by v, k",
             "select k, count(*) from p group by k", "select k, v, count(*) from (select k, v from p order by k) t group by k, v",
+            # two inputs ordered on the join key (a merge join), NULL and duplicate keys on both sides
+            "select t.x, t.y, u.x, u.y from (select x, y from a order by x) t join (select x, y from a order by x) u on t.x = u.x",
+            "select t.x, u.k from (select x, y from a order by x) t join (select k, v from p order by k) u on t.x = u.k",
+            "select t.x, t.y, u.x from (select x, y from a order by x) t left join (select x, y from a where y > 0 order by x) u on t.x = u.x",
+            "select t.y, u.v from (select x, y from a order by y) t left join (select k, v from p order by v) u on t.y = u.v",
         ])
         arows = [(rng.choice([0, 1, None]), rng.choice([0, 1, 2])) for _ in range(rng.randint(4, 10))]
         prows = [(rng.choice([0, 1, 2]), rng.choice([0, 1])) for _ in range(rng.randint(4, 10))]
